@@ -1109,7 +1109,8 @@ def run(ctx):
                 'per case (pop_size 0..12, same grid); non-trivial = at least 2 graphs returned.')
     ctx.trusted_extra = [
         'copy.deepcopy modelled as a fresh isomorphic sub-heap (uids kept); uuid4 as an injective naming; '
-        'LinkedGraph.sort_nodes not modelled (cannot change the set of root nodes); graph adapters are None',
+        'LinkedGraph.sort_nodes not modelled (cannot change the set of root nodes); graph adapters are outside the model: '
+        'adapter-configured builders / generators are compared with the same adapter-free model',
         'random.randint / random.choices / node_factory.get_node are choice oracles: choices are inferred from the '
         'observed attempt trees inside Coq (total node factory) or found by backtracking over the node factory log in '
         'the harness (partial node factory); distance_to_root_level modelled as recursion depth',
